@@ -303,6 +303,8 @@ def check(prog, rep):
         r4.add(f"precision|{FIELD_OF[src]}", bool(decs) and min(decs) >= need,
                f"{FIELD_OF[src]} formatted with specs {sp}; needs >= {need} decimals fixed-point", where)
     rule_chainflag(prog, rep)
+    from .shared import rule_pqr_reader
+    rep.guarded(rule_pqr_reader, prog, rep, "R6")
 
 
 def rule_chainflag(prog, rep):
